@@ -332,3 +332,93 @@ def check_keywords_not_crossed(ctx, fi, rule='R-FWD/keyword-not-crossed'):
         ctx.ob(rule, f'{fi.qual}:slots', fi.loc(fi.node), True,
                f'{n} namesake slot(s) get their namesakes')
     return n
+
+
+def _defaults_of(fi):
+    a = fi.node.args
+    out = {}
+    pos = a.posonlyargs + a.args
+    for p, d in zip(pos[len(pos) - len(a.defaults):], a.defaults):
+        out[p.arg] = d
+    for p, d in zip(a.kwonlyargs, a.kw_defaults):
+        if d is not None:
+            out[p.arg] = d
+    return out
+
+
+def check_sibling_defaults_bound(ctx, fi, rule='R-AGREE/sibling-defaults'):
+    """a dispatcher that hands the same job to one of several helpers,
+    depending on the encoding / the kind of its input, gets the same job
+    done only if the helpers run with the same settings.  Where two
+    helpers called in different arms of one if-chain have a parameter of
+    the same name whose *defaults differ*, every such call binds the
+    parameter: leaving it out makes the answer depend on the arm (dense
+    data judged with one tolerance, sparse data with another)."""
+    import ast
+    from ..core.resolve import resolve_callee, bind_args
+    from ..core.loader import FunctionInfo, parent, unparse
+    db = ctx.db
+    n = 0
+
+    def arm_of(call):
+        """(root If of the chain, index of the arm) for the nearest chain"""
+        node = call
+        child = None
+        while node is not None and node is not fi.node:
+            p = parent(node)
+            if isinstance(p, ast.If) and node is not p.test:
+                # climb to the root of the elif chain
+                arm = 0 if node in p.body else 1
+                root = p
+                path = [arm]
+                while isinstance(parent(root), ast.If) and parent(
+                        root).orelse == [root]:
+                    root = parent(root)
+                    path.append(1)
+                return root, tuple(path)
+            child = node
+            node = p
+        return None, None
+
+    calls = []
+    for c in ast.walk(fi.node):
+        if isinstance(c, ast.Call):
+            t = resolve_callee(db, fi, c)
+            if isinstance(t, FunctionInfo) and t is not fi:
+                root, arm = arm_of(c)
+                if root is not None:
+                    calls.append((c, t, root, arm))
+    seen = set()
+    for i, (c1, t1, r1, a1) in enumerate(calls):
+        for (c2, t2, r2, a2) in calls[i + 1:]:
+            if r1 is not r2 or a1 == a2 or t1 is t2:
+                continue
+            d1, d2 = _defaults_of(t1), _defaults_of(t2)
+            for p in sorted(set(d1) & set(d2)):
+                if ast.dump(d1[p]) == ast.dump(d2[p]):
+                    continue
+                if p in ('verbose',):
+                    # progress printing only: no result depends on it
+                    continue
+                for c, t in ((c1, t1), (c2, t2)):
+                    key = (id(c), p)
+                    if key in seen:
+                        continue
+                    seen.add(key)
+                    m, _ = bind_args(t, c)
+                    bound = m.get(p) is not None or any(
+                        k.arg is None for k in c.keywords)
+                    n += 1
+                    ctx.touch(fi)
+                    ctx.ob(rule, f'{fi.qual}:{t.name}.{p}', fi.loc(c),
+                           bound,
+                           f'`{p}` is bound in the call of {t.name}'
+                           if bound else
+                           f'{fi.name} calls {t1.name} and {t2.name} in '
+                           f'different arms of one test; their defaults '
+                           f'for `{p}` differ ({unparse(d1[p])} / '
+                           f'{unparse(d2[p])}) and this call of {t.name} '
+                           f'leaves `{p}` out: the same request is '
+                           'answered with another setting depending on '
+                           'the arm')
+    return n
